@@ -148,6 +148,27 @@ def unimodalFn : P String := do
   let ok := unimodalCheck (Gen.mesh__PROJECTION_LENGTH_EPSILON : α) τ' (A.R.tmulVec d) m
   pure s!"ok {if ok then 1 else 0}"
 
+/-- `<mesh tokens> start fuel d(3)` (d in the world frame) → `ok idx branch moves` | `err <Err>` :
+the repaired `hill_climb_mesh_extreme` with explicit fuel, `PROJECTION_LENGTH_EPSILON` from Gen -/
+def climbFn : P String := do
+  let (A, m, _) ← pMesh (α := α)
+  let start ← pNat
+  let fuel ← pNat
+  let d : V3 α ← pV3
+  match hillClimbF (Gen.mesh__PROJECTION_LENGTH_EPSILON : α) (A.R.tmulVec d) start m fuel with
+  | .ok (idx, br, mv) => pure s!"ok {idx} {br} {mv}"
+  | .error e => pure (rErrS e)
+
+/-- same input → `ok idx branch` | `err fuel` : the climb BEFORE repair e900ae9 -/
+def climbAsIsFn : P String := do
+  let (A, m, _) ← pMesh (α := α)
+  let start ← pNat
+  let fuel ← pNat
+  let d : V3 α ← pV3
+  match hillClimb_asIs_before_fix (A.R.tmulVec d) start m fuel with
+  | .ok (idx, br) => pure s!"ok {idx} {br}"
+  | .error e => pure (rErrS e)
+
 def dispatch (fn : String) : Option (P String) :=
   match fn with
   | "C03.support" => some (supportFn (α := α))
@@ -160,6 +181,8 @@ def dispatch (fn : String) : Option (P String) :=
   | "C03.meshbuild" => some (meshBuildFn (α := α))
   | "C03.meshwf" => some (meshWfFn (α := α))
   | "C03.unimodal" => some (unimodalFn (α := α))
+  | "C03.climb" => some (climbFn (α := α))
+  | "C03.climb.asis" => some (climbAsIsFn (α := α))
   | _ => none
 
 end D3.Drv03
